@@ -177,6 +177,39 @@ func vp_C09_frame() {
 	vpAssert("repeatable", v1 == v1b)
 	vpAssert("order-and-unrelated-state", v1 == v2)
 	vpAssert("needed-state-suffices", v1 == v3)
+	// p4: the auth events that AddAuthEvents selects for this event when it is built - from the whole state, or (in
+	// rooms whose ID names the create event, where the builder need not be handed it) from the state without the
+	// create event. Another server, which looks up exactly those IDs plus the create event, must reach the verdict.
+	if verImpl, err := GetRoomVersion(ver); err == nil {
+		from := s.events
+		if verImpl.DomainlessRoomIDs() && vpNondetBool("builder_state_lacks_create") {
+			from = nil
+			for _, ev := range s.events {
+				if ev.Type() != spec.MRoomCreate {
+					from = append(from, ev)
+				}
+			}
+		}
+		src, _ := NewAuthEvents(from)
+		eb := verImpl.NewEventBuilderFromProtoEvent(&ProtoEvent{SenderID: string(e.SenderID()), RoomID: e.RoomID().String(), Type: e.Type(), StateKey: e.StateKey(), Content: e.Content()})
+		if eb.AddAuthEvents(src) == nil {
+			p4, _ := NewAuthEvents(nil)
+			ids, _ := eb.AuthEvents.([]string)
+			for _, ev := range s.events {
+				selected := ev.Type() == spec.MRoomCreate && verImpl.DomainlessRoomIDs()
+				for _, id := range ids {
+					if ev.EventID() == id {
+						selected = true
+					}
+				}
+				if selected {
+					_ = p4.AddEvent(ev)
+				}
+			}
+			v4 := Allowed(e, p4, vpUserIDForSender) == nil
+			vpAssert("selected-auth-events-suffice", v1 == v4)
+		}
+	}
 	vpReach("accept", v1)
 	vpReach("reject", !v1)
 }
